@@ -232,5 +232,51 @@ Proof.
     replace e with (k + a) by (unfold a; lia).
     rewrite cnt_later by apply rinv'_init. rewrite total_split.
     assert (Hn : n = S (k + a) + b) by (unfold a, b; lia).
-    assert (Hp := prod_total (S (k + a)) b). rewrite <- Hn in Hp. nia.
+    assert (Hp := prod_total (S (k + a)) b). rewrite <- Hn in Hp. rewrite <- Hp. ring.
+Qed.
+
+(* ---- link to the model of crypto.Sample ----
+   The pick calls of the model's loop are exactly those of its draws, and
+   carrying them out on the vector of candidate indices is `run`. *)
+Open Scope Z_scope.
+
+Fixpoint draws_picks (k i : Z) (js : list Z) : list (Z * Z) :=
+  match js with
+  | [] => []
+  | j :: r => (if j <? k then [(j, i)] else []) ++ draws_picks k (i + 1) r
+  end.
+
+Fixpoint draws_ok (i : Z) (js : list Z) : Prop :=
+  match js with [] => True | j :: r => 0 <= j <= i /\ draws_ok (i + 1) r end.
+
+Lemma sample_loop_draws fuel k i c d tape ps rest :
+  0 <= i -> i + Z.of_nat fuel <= max_i64 -> words tape -> word d ->
+  sample_loop fuel k i c d tape = Ok (ps, rest) ->
+  exists js, length js = fuel /\ draws_ok i js /\ ps = draws_picks k i js.
+Proof.
+  revert i tape ps rest. induction fuel as [|f IH]; intros i tape ps rest Hi Hmax Hw Hd; cbn [sample_loop].
+  - intros H. inversion H; subst. exists []. repeat split.
+  - destruct (rand_intn (i + 1) c d tape) as [[j tape1]| | |] eqn:Er; try discriminate.
+    assert (Hi1 : 0 < i + 1 <= max_i64) by lia.
+    destruct (rand_intn_range _ _ _ _ _ _ Hi1 Hw Hd Er) as [Hj Hw1].
+    destruct (sample_loop f k (i + 1) c d tape1) as [[ps2 rest2]| | |] eqn:El; try discriminate.
+    intros H. inversion H; subst.
+    assert (Hi2 : 0 <= i + 1) by lia.
+    assert (Hm2 : i + 1 + Z.of_nat f <= max_i64) by lia.
+    destruct (IH (i + 1) tape1 ps2 rest Hi2 Hm2 Hw1 Hd El) as [js [Hl [Hok Hps]]].
+    exists (j :: js). cbn [length draws_ok draws_picks]. repeat split; [lia|lia|lia|exact Hok|rewrite Hps; reflexivity].
+Qed.
+
+Definition idx_pick (res : list nat) (p : Z * Z) : list nat :=
+  set_nth (Z.to_nat (fst p)) (Z.to_nat (snd p)) res.
+
+Lemma run_picks k js : forall i res, draws_ok (Z.of_nat i) js ->
+  fold_left idx_pick (draws_picks (Z.of_nat k) (Z.of_nat i) js) res = run k res i (map Z.to_nat js).
+Proof.
+  induction js as [|j r IH]; intros i res Hok; cbn [draws_picks map run fold_left]; [reflexivity|].
+  destruct Hok as [Hj Hr]. rewrite fold_left_app.
+  replace (Z.of_nat i + 1) with (Z.of_nat (S i)) in * by lia.
+  rewrite IH by exact Hr. f_equal. unfold rstep.
+  destruct (Z.ltb_spec j (Z.of_nat k)); destruct (Nat.ltb_spec (Z.to_nat j) k); try lia; cbn [fold_left]; [|reflexivity].
+  unfold idx_pick. cbn [fst snd]. rewrite Nat2Z.id. reflexivity.
 Qed.
